@@ -18,8 +18,9 @@ const CFGS = [
 const b64 = s => Buffer.from(s).toString('base64')
 const MAPS = [G.VALID_MAP, JSON.stringify({ version: 3, sources: ['a.ts', 'b.ts'], names: ['x', 'y'], mappings: 'AAAAA,CAACC;ACAD;AAAA' })]
 
-function genRequest (rng, files) {
-  const kind = rng.weighted([[3, 'corpus'], [3, 'catalog'], [3, 'random'], [2, 'mutated'], [2, 'multi-map-comments'], [2.5, 'same-relative-map-url'], [1.5, 'many-literals'], [1, 'notmodified'], [1, 'collision']])
+function genRequest (rng, files, plainOnly) {
+  let kind = rng.weighted([[3, 'corpus'], [3, 'catalog'], [3, 'random'], [2, 'mutated'], [2, 'multi-map-comments'], [2.5, 'same-relative-map-url'], [1.5, 'many-literals'], [1, 'notmodified'], [0.6, 'extreme-shape'], [1, 'collision']])
+  if (plainOnly && kind === 'extreme-shape') kind = 'catalog' // (the memcheck history: 25x slower, sizes kept small)
   let code; let reader
   let file = '/srv/app/lib/m' + rng.int(6) + '.js'
   if (rng.bool(0.3)) file = `/srv/app/${rng.pick(['a', 'b', 'c/d'])}/m${rng.int(3)}.js`
@@ -48,6 +49,15 @@ function genRequest (rng, files) {
     reader = { files: files2, parent: 'node' }
   } else if (kind === 'many-literals') {
     code = 'function lits(a) {\n' + Array.from({ length: rng.range(20, 60) }, (_, i) => `  const l${i} = ${rng.bool(0.3) ? "'shared literal value'" : `'literal number ${i} long enough'`}; a += l${i};`).join('\n') + '\n  return a\n}\n'
+  } else if (kind === 'extreme-shape') {
+    // files at the edge of what the rewriter copes with: very deep nesting with very many siblings at the bottom, very many
+    // temporaries in one block, a very long flat sum - resources used up by one call must be back for the next one
+    const d = rng.pick([400, 999, 1001, 1100])
+    const shape = rng.int(4)
+    if (shape === 0) code = 'function deep(a, g) { return ' + 'g('.repeat(d) + '[' + Array.from({ length: 1500 }, (_, k) => 'a + ' + k).join(', ') + ']' + ')'.repeat(d) + ' }\n'
+    else if (shape === 1) code = 'function deep(a) { return ' + '['.repeat(d) + Array.from({ length: 1100 }, (_, k) => 'a + ' + k).join(', ') + ']'.repeat(d) + ' }\n'
+    else if (shape === 2) code = 'function wide(a) { return ' + Array.from({ length: 150 }, (_, k) => `a.m${k}()`).join(' + ') + ' }\n'
+    else code = 'function deepUnary(a) { return ' + '!'.repeat(d + 200) + '[' + Array.from({ length: 1100 }, (_, k) => '`${a}' + k + '`').join(', ') + '] }\n'
   } else if (kind === 'notmodified') code = "function f() { return 'a' + 'b' }\n// c\n"
   else code = 'function f(__datadog_test_0, a) { return a + __datadog_test_0 }\n'
   return { code, file, reader, kind, cfgName: null }
@@ -85,7 +95,7 @@ function firstDiffField (a, b) {
 module.exports = {
   id: 'C16',
   level: 'exploration',
-  rule: 'random call histories (20-200 calls over 5-30 distinct requests: corpus, catalogue, random, mutated/syntax-error, several sourceMappingURL comments, many literals, not-modified, refused name collision) on 1-4 rewriter instances per configuration, in half of the histories with a logger installed (process-wide, levels OFF..TRACE) at a random point, are recorded at the harness boundary; an offline checker requires every response to equal (content bytes, metrics, literal set, error text) the response to the same request issued alone in a fresh process, on another instance, and in replays of the whole history in other processes (fresh hash seeds / ASLR). With the prefix omitted equality is modulo the prefix and the prefix must be constant per instance. A memcheck run (track-origins) over a history looks for uninitialised-value use. Package layer: call histories (8-28 calls) through the real main.js on shared CacheRewriter / NonCacheRewriter instances over paths that share base names and carry byte-identical code; every response (content, metrics, literal set, error) must equal the response to the same call on a freshly loaded package instance. distinct_nontrivial = distinct (request, position-in-history) observations compared.',
+  rule: 'random call histories (20-200 calls over 5-30 distinct requests: corpus, catalogue, random, mutated/syntax-error, several sourceMappingURL comments, many literals, not-modified, refused name collision, extreme shapes: nesting around 1000 levels with over a thousand siblings at the bottom, hundreds of temporaries) on 1-4 rewriter instances per configuration, in half of the histories with a logger installed (process-wide, levels OFF..TRACE) at a random point, are recorded at the harness boundary; an offline checker requires every response to equal (content bytes, metrics, literal set, error text) the response to the same request issued alone in a fresh process, on another instance, and in replays of the whole history in other processes (fresh hash seeds / ASLR). With the prefix omitted equality is modulo the prefix and the prefix must be constant per instance. A memcheck run (track-origins) over a history looks for uninitialised-value use. Package layer: call histories (8-28 calls) through the real main.js on shared CacheRewriter / NonCacheRewriter instances over paths that share base names and carry byte-identical code; every response (content, metrics, literal set, error) must equal the response to the same call on a freshly loaded package instance. distinct_nontrivial = distinct (request, position-in-history) observations compared.',
   assumptions: ['literal reports are compared as sets (their order is unspecified)', 'native build: hash seeds and ASLR vary between processes as they do between wasm instantiations only partially; same-process instances share the allocator'],
   plan (ctx) {
     const n = ctx.tier === 'thorough' ? 2000 : 128
@@ -134,7 +144,7 @@ module.exports = {
       const rng = new Rng(ctx.seed, 'c16', stream)
       const K = rng.range(5, 30)
       const reqs = []
-      for (let i = 0; i < K; i++) { const r = genRequest(rng.fork(i), files); const [cn, c] = rng.pick(CFGS); r.cfgName = cn; r.config = c; reqs.push(r) }
+      for (let i = 0; i < K; i++) { const r = genRequest(rng.fork(i), files, spec.kind === 'memcheck'); const [cn, c] = rng.pick(CFGS); r.cfgName = cn; r.config = c; reqs.push(r) }
       const len = spec.kind === 'memcheck' ? spec.calls : rng.range(20, 200)
       const nInst = rng.range(1, 4)
       // history: sequence of (request index, instance index)
